@@ -2,9 +2,9 @@
    and Drain::next (re-translated from /repo on every run), evaluated by the IR semantics in the machine
    world with the function-boundary semantics of EquivElem.v, in terms of the list model. *)
 From Coq Require Import ZArith List Bool Lia Permutation.
-From MV Require Import Ast Eval Scalar Machine EquivDefs Prims EquivTac EquivElem EquivPop EquivRemove EquivInsert EquivSwapRemove EquivIter EquivExtSlice.
+From MV Require Import Ast Eval Scalar Machine EquivDefs Prims EquivTac EquivElem EquivPop EquivRemove EquivInsert EquivSwapRemove EquivIter EquivExtSlice EquivExtend.
 From MV.Gen Require Import AstGen.
-From MV.Proofs Require Import Arith Logic Prim View OpsLocal Guards Grow CapHistory Drops Retain DrainIt Sentinel Core Refine IterAt Resize Clone CloneSlice.
+From MV.Proofs Require Import Arith Logic Prim View OpsLocal Guards Grow CapHistory Drops Retain DrainIt Sentinel Core Refine IterAt Resize Clone CloneSlice Extend.
 Import ListNotations.
 Open Scope list_scope.
 Open Scope Z_scope.
@@ -160,5 +160,30 @@ Section SourceSpecs.
     intros Hab Hcl HF. rewrite extend_from_slice_equiv by exact HF.
     pose proof (extend_from_slice_abs cfg ncap Hcfg Hpol Htracked s w l src Hab Hcl) as H.
     unfold lift_m. destruct (extend_from_slice cfg ncap w src s) as [[a| | | | |] s']; simpl in *; tauto.
+  Qed.
+  (* extend(iter) -- `for x in iter { self.push(x) }` as the translator renders it, over ANY iterator
+     script: the old contents followed by the elements yielded before the first None (or the panic) *)
+  Theorem extend_source s v l sc F :
+    vabs cfg s v l -> (S (List.length sc) <= F)%nat ->
+    let '(n, p) := yields sc in
+    match run_extend cfg ncap (FUEL + F) v sc s with
+    | (Norm _, s') =>
+        p = false /\ vabs cfg s' v (l ++ zseq (next_elem s) n) /\ next_elem s' = next_elem s + Z.of_nat n /\
+        (forall e, e < next_elem s -> ledger s' e = ledger s e)
+    | (Panic, s') =>
+        exists k, (k <= n)%nat /\ vabs cfg s' v (l ++ zseq (next_elem s) k) /\
+                  (forall e, e < next_elem s -> ledger s' e = ledger s e) /\
+                  next_elem s <= next_elem s' /\
+                  (forall e, next_elem s <= e < next_elem s' ->
+                             In e (zseq (next_elem s) k) \/ ledger s' e = Dropped)
+    | (Fail FAbort, _) | (Fail (FAllocAbort _ _), _) => True
+    | _ => False
+    end.
+  Proof.
+    intros Hab HF.
+    pose proof (extend_abs cfg ncap Hcfg Hpol Htracked s v l sc Hab) as H.
+    destruct (yields sc) as [n p].
+    rewrite extend_equiv by exact HF.
+    unfold lift_m. destruct (extend cfg ncap v sc s) as [[a| | | | |] s']; simpl in *; tauto.
   Qed.
 End SourceSpecs.
